@@ -211,5 +211,5 @@ func (d *Document) isWholeDocument(r *lsp.Range) bool {
 		return false
 	}
 	l, c := d.Len()
-	return r.End.Line == uint32(l) || r.End.Character == uint32(c)
+	return r.End.Line == uint32(l-1) && r.End.Character == uint32(c)
 }
